@@ -22,5 +22,13 @@ pub fn units() -> Vec<Unit> {
             Fn("BaseBandModulationParams::symbols_to_ms"),
             Fn("BaseBandModulationParams::time_on_air_us"),
         ],
+    },
+    // C03 / C19: (cid, len) tables of the six CommandHandler enums (tables.rs::cmd_tables)
+    Unit {
+        module: "Gen.CmdTables",
+        file: "lorawan-encoding/src/maccommands.rs",
+        more_files: vec![],
+        imports: vec![],
+        items: vec![Custom(crate::tables::cmd_tables)],
     }]
 }
